@@ -254,7 +254,42 @@ def h_all_universe(run, cfg):
             run.check_near(t.strategy.universe[c][d], data[c][d], 1e-12, 'universe-carries-input-prices', '%s@%s' % (c, d))
 
 
-HARNESSES = {'struct': h_struct, 'push': h_push, 'lazy_eager': h_lazy_eager, 'all_universe': h_all_universe}
+def h_submode(run, cfg):
+    """a setting pushed at a sub-strategy (different from its parent's) also governs securities that the sub-strategy creates later on first use:
+    the lazily built tree ends exactly like the one built up front"""
+    B = bt()
+    C = B.core
+    dts = dates(2)
+    data = frame(run, dts, ['a', 'b'], lambda i, c: {'a': 30.0, 'b': 7.0}[c])
+    amt = run.real('amt', 50, 5000) if not cfg['sub_int'] else 1051.0      # whole-unit sizing of a symbolic real amount is slow (floor): concrete there
+    res = []
+    for eager in (False, True):
+        kids = [C.Security('a'), C.Security('b')] if eager else ['a', 'b']
+        sub = C.Strategy('sub', [], kids)
+        root = C.Strategy('root', [], [sub])
+        root.use_integer_positions(bool(cfg['root_int']))
+        root['sub'].use_integer_positions(bool(cfg['sub_int']))
+        root.setup(data)
+        sub = root['sub']
+        if cfg.get('after_setup'):
+            sub.use_integer_positions(bool(cfg['sub_int']))
+        root.update(dts[0])
+        root.adjust(100000.0)
+        root.allocate(50000.0, 'sub')
+        root.update(dts[0])
+        sub.allocate(amt, 'a')
+        sub.allocate(-amt, 'b')
+        root.update(dts[0])
+        res.append((root, sub))
+    (r1, s1), (r2, s2) = res
+    for n in ('a', 'b'):
+        run.check(s1[n].integer_positions == bool(cfg['sub_int']), 'integer-positions-reach-lazy-children', '%s flag %r, sub-strategy pushed %r' % (n, s1[n].integer_positions, bool(cfg['sub_int'])))
+        run.check_near(s1[n].position, s2[n].position, 1e-9, 'lazy=eager-positions', n)
+    run.check_near(r1.value, r2.value, EPS_MONEY, 'lazy=eager-values', 'root')
+    run.check_near(s1.capital, s2.capital, EPS_MONEY, 'lazy=eager-cash', 'sub')
+
+
+HARNESSES = {'submode': h_submode, 'struct': h_struct, 'push': h_push, 'lazy_eager': h_lazy_eager, 'all_universe': h_all_universe}
 WITNESS_CAP = {'quick': 150, 'thorough': 300}
 
 
@@ -265,6 +300,9 @@ def plan(tier):
              dict(harness='all_universe', cfg={}, opts=opts), dict(harness='all_universe', cfg=dict(late=1), opts=opts)]
     tasks.append(dict(harness='lazy_eager', cfg=dict(shape='nested_only', int=0, fee=0, monitor=1), opts=opts))
     tasks.append(dict(harness='lazy_eager', cfg=dict(shape='nested_only', int=0, fee=0), opts=opts))
+    for ri, si in ((1, 0), (0, 1), (1, 1), (0, 0)):
+        for after in (0, 1):
+            tasks.append(dict(harness='submode', cfg=dict(root_int=ri, sub_int=si, after_setup=after), opts=opts))
     for shape in ('flat', 'nested'):
         tasks.append(dict(harness='lazy_eager', cfg=dict(shape=shape, int=0, fee=0), opts=opts))
         tasks.append(dict(harness='lazy_eager', cfg=dict(shape=shape, int=0, fee=0, monitor=1), opts=opts))
